@@ -227,6 +227,10 @@ func runC03(c *core.Ctx) {
 		{Name: "idpinit", N: 2, Label: func(i int) string { return []string{"off", "AllowIDPInitiated"}[i] }},
 		{Name: "issuerFormat", N: len(c03IssuerFormats), Label: func(i int) string { return c03IssuerFormats[i].name }},
 		{Name: "irt", N: 2, Label: func(i int) string { return []string{"answers-request", "InResponseTo-absent-everywhere"}[i] }},
+		// other conditions next to the audience restrictions: whom the assertion may be proxied to says nothing about whom it is for
+		{Name: "proxy", N: 4, Label: func(i int) string {
+			return []string{"none", "ProxyRestriction-naming-this-SP", "ProxyRestriction-Count=0-naming-this-SP", "OneTimeUse+ProxyRestriction-naming-another"}[i]
+		}},
 	}
 	k := 2
 	if c.Thorough() {
@@ -297,6 +301,14 @@ func runC03(c *core.Ctx) {
 			for i := range a.Confirmations {
 				a.Confirmations[i].InResponseTo = nil
 			}
+		}
+		switch idx[11] {
+		case 1:
+			a.HasProxy, a.ProxyAudiences = true, []string{audVal(0, entitySet)}
+		case 2:
+			a.HasProxy, a.ProxyCount, a.ProxyAudiences = true, samlgen.S("0"), []string{audVal(0, entitySet)}
+		case 3:
+			a.OneTimeUse, a.HasProxy, a.ProxyAudiences = true, true, []string{"https://other-sp.example.org/metadata"}
 		}
 		resp.Destination = destVal(idx[4])
 		a.Audiences = nil
@@ -369,7 +381,7 @@ func runC03(c *core.Ctx) {
 		st := statusVals[idx[6]]
 		statusOnly := false
 		if !st.topSuccess {
-			statusOnly = !reject && !dc && idx[7] == 0 && idx[9] == 0 && idx[10] == 0
+			statusOnly = !reject && !dc && idx[7] == 0 && idx[9] == 0 && idx[10] == 0 && idx[11] == 0
 			reject = true
 		}
 		switch {
@@ -472,7 +484,7 @@ func runC03(c *core.Ctx) {
 	c.Group("options-product-x-single-deviation")
 	keyPrefix = "opt|"
 	optFields := append([]lattice.Field{}, fields...)
-	for i := 7; i < len(optFields); i++ {
+	for i := 7; i <= 10; i++ { // (the proxy field stays an ordinary deviation here)
 		optFields[i].Weight = func(int) int { return 0 }
 	}
 	allCfgs := cfgs
@@ -484,7 +496,7 @@ func runC03(c *core.Ctx) {
 	}
 	lattice.Enumerate(optFields, 1, func(idx []int, dev int) {
 		opts := 0
-		for i := 7; i < len(idx); i++ {
+		for i := 7; i <= 10; i++ {
 			if idx[i] != 0 {
 				opts++
 			}
@@ -499,6 +511,76 @@ func runC03(c *core.Ctx) {
 	c.Affinity(-1)
 	c03Authority(c)
 	c03Reconfigured(c)
+	// what an IdP really sends when a login fails: a non-Success status and no assertion (or one that is of no use). It must come back
+	// as ErrBadStatus carrying that status, not as a complaint about the missing assertion.
+	c.Group("failure-responses")
+	{
+		fsp := harness.NewSP(harness.SPOpt{})
+		for si, st := range statusVals {
+			if st.code == nil || st.noCode || st.noStatus || *st.code == samlgen.StatusOK {
+				continue
+			}
+			for _, lay := range []harness.Layout{{}, {SignResponse: true}} {
+				for _, content := range []string{"no-assertion", "expired-assertion", "unsigned-assertion-for-another-sp"} {
+					for _, entry := range []string{"xml", "form", "artifact"} {
+						si, st, lay, content, entry := si, st, lay, content, entry
+						key := fmt.Sprintf("failure/status=%s/lay=%s/%s/%s", statusVals[si].name, lay, content, entry)
+						c.Case(key, func(t *core.T) {
+							t.NonTrivial()
+							resp := samlgen.DefaultResponse()
+							resp.StatusCode, resp.SubStatus = st.code, st.sub
+							var as []*samlgen.Assertion
+							switch content {
+							case "expired-assertion":
+								a := samlgen.DefaultAssertion()
+								a.NotOnOrAfter = samlgen.S(samlgen.TS(samlgen.T0.Add(-time.Hour)))
+								a.Confirmations[0].NotOnOrAfter = a.NotOnOrAfter
+								as = append(as, a)
+							case "unsigned-assertion-for-another-sp":
+								a := samlgen.DefaultAssertion()
+								a.Audiences = [][]string{{"https://other-sp.example.org/metadata"}}
+								as = append(as, a)
+							}
+							rel := harness.BuildResponse(resp, as, lay, idp1(), spKey())
+							doc := samlgen.Doc(rel)
+							var a *saml.Assertion
+							var err error
+							switch entry {
+							case "xml":
+								a, err = fsp.ParseXMLResponse(doc, []string{samlgen.ReqID}, harness.MustURL(samlgen.SPAcs))
+							case "form":
+								a, err = fsp.ParseResponse(formRequest(samlgen.SPAcs, url.Values{"SAMLResponse": {b64(doc)}}), []string{samlgen.ReqID})
+							default:
+								ar := harness.ArtifactResponseEl("id-artresp-1", "id-resolve-1", samlgen.TS(samlgen.T0), samlgen.S(samlgen.IDPEntity), samlgen.StatusOK, rel)
+								samlgen.Sign(ar, idp1(), "")
+								a, err = fsp.ParseXMLArtifactResponse(samlgen.Doc(harness.SoapEnvelope(ar)), []string{samlgen.ReqID}, "id-resolve-1", harness.MustURL(samlgen.SPAcs))
+							}
+							t.Impl(1)
+							checkAPIContract(t, a, err)
+							t.Modelled(core.MustReject)
+							t.Compared()
+							t.Outcome(harness.ErrClass(err))
+							if err == nil {
+								t.Fail("C03/failure-response-accepted", "a Response with status %s was accepted", *st.code)
+								return
+							}
+							var bs saml.ErrBadStatus
+							ire, _ := err.(*saml.InvalidResponseError)
+							if ire == nil || !errors.As(ire.PrivateErr, &bs) {
+								t.Fail("C03/bad-status-not-reported/failure-response", "status %s, %s: PrivateErr is %T (%v), want ErrBadStatus", *st.code, content, privOf(err), privErr(err))
+							} else if bs.Status != *st.code {
+								t.Fail("C03/bad-status-wrong-code", "ErrBadStatus.Status=%q, top-level code is %q", bs.Status, *st.code)
+							}
+							if t.Failed() {
+								t.Input("response_xml", string(doc))
+							}
+						})
+					}
+				}
+			}
+		}
+	}
+
 	// artifact level: Issuer x Status on the ArtifactResponse itself
 	c.Group("artifact-level")
 	sp := harness.NewSP(harness.SPOpt{})
